@@ -16,7 +16,7 @@ from ..dataflow import Flow, chain, call_name
 from ..poly import Poly
 from ..terms import Terms, mk_cmp, is_none, plain, match, V, ANY, show, \
     subterms, alternatives, stores, method_calls, lookup, owner_terms, \
-    owner_views
+    owner_views, all_method_calls, all_stores, facts_at
 from ..util import calls_in, qual, formals, returns_of, raises_of, \
     raise_name, has_fact, bind
 
@@ -146,7 +146,10 @@ def r1_leaves(program, rep):
                 t, _ = view.cond(c, vn)
                 if t[0] == "cmp" and t[1] == "In" and t[2] == SINK:
                     RTE = t[3]
-    okc = RTE is not None and CORES is not None
+    if RTE is None or CORES is None:
+        raise AnalysisError("route: the constraint / allocation look-ups "
+                            "for a sink were not found in the form analysed")
+    okc = True
     detail = []
     if okc:
         want_cores = ("get", ("get", P("allocations"), SINK, ANY),
@@ -190,6 +193,14 @@ def r1_leaves(program, rep):
                 got.append(arg)
             detail.append("%s: %s" % (name, ", ".join(show(x)[:80]
                                                         for x in got)))
+            if ("?",) in got or any(
+                    x[0] == "tuple" and len(x) == 3 and x[2] == SINK and
+                    any(st_[0] in ("call", "callv") and
+                        st_[1][0] in ("local",) for st_ in subterms(x[1]))
+                    for x in got):
+                raise AnalysisError("route: the leaves of a sink are "
+                                    "produced in a form that is not "
+                                    "analysed (%s)" % detail[-1][:120])
             okc = okc and got == want
     rep.check(okc, "C03-R1", inst, "leaf route = the endpoint constraint's "
               "route if there is one, else one core route per core in "
@@ -415,21 +426,25 @@ def r3_copy(program, rep):
     cp = program.get(NER + ":copy_and_disconnect_tree")
     C = Terms(cp)
     MACH2 = ("param", formals(cp)[1])
-    att = [x for x in method_calls(C, "append")
-           if x[2][0] == "attr" and x[2][2] == "children" and len(x[3]) == 1
-           and x[3][0][0] == "tuple" and len(x[3][0]) == 3]
-    brk = [x for x in method_calls(C, "add") if len(x[3]) == 1 and
-           x[3][0][0] == "tuple" and len(x[3][0]) == 3]
-    okc = len(att) == 1 and len(brk) == 1
+    att = [x for x in all_method_calls(C, "append")
+           if x[3][0] == "attr" and x[3][2] == "children" and len(x[4]) == 1
+           and x[4][0][0] == "tuple" and len(x[4][0]) == 3]
+    brk = [x for x in all_method_calls(C, "add") if len(x[4]) == 1 and
+           x[4][0][0] == "tuple" and len(x[4][0]) == 3]
+    if len(att) != 1 or len(brk) != 1:
+        raise AnalysisError("copy_and_disconnect_tree: the attach / record-"
+                            "as-broken pair was not found in the form "
+                            "analysed")
+    okc = True
     if okc:
-        an, _, recv, (item,) = att[0]
+        av, an, _, recv, (item,) = att[0]
         NP, DIR, NN = recv[1], item[1], item[2]
         guard = mk_cmp("In", DIR, ("call", ("global", "links_between"),
                                    (("attr", NP, "chip"),
                                     ("attr", NN, "chip"), MACH2), ()))
-        bn, _, _, (pair,) = brk[0]
-        okc = (guard, True) in C.all_facts(an) and \
-            (guard, False) in C.all_facts(bn) and \
+        bv, bn, _, _, (pair,) = brk[0]
+        okc = (guard, True) in facts_at(av, an) and \
+            (guard, False) in facts_at(bv, bn) and \
             pair == ("tuple", ("attr", NP, "chip"), ("attr", NN, "chip"))
     rep.check(okc, "C03-R3", qual(cp), "a child is attached iff its own hop "
               "direction is one of the working links from the parent's chip "
@@ -449,24 +464,32 @@ def r3_copy(program, rep):
                     st_[2][0][2] == "chip":
                 OLD = st_[2][0][1]
         alive = mk_cmp("In", ("attr", OLD, "chip"), MACH2) if OLD else None
+        if OLD is None:
+            raise AnalysisError("copy_and_disconnect_tree: where copies of "
+                                "nodes are made")
+        ROOT = ("param", formals(cp)[0])
         n_new = n_up = 0
-        okd = OLD is not None
+        okd = True
         for b_ in C.binds:
             if b_.mode != "assign" or b_.value is None:
                 continue
             v = C.term(b_.value, b_.node)
             if v[0] == "callv" and v[1] == ("global", "RoutingTree"):
+                if v[2] == (("attr", ROOT, "chip"),):
+                    continue        # the root (must be alive) is always kept
                 n_new += 1
                 okd = okd and (alive, True) in C.all_facts(b_.node)
-            elif v == NP and b_.var == getattr(
-                    att[0][1].args[0].elts[1], "id", None):
+            elif v == NP and (alive, False) in C.all_facts(b_.node):
                 n_up += 1
-                okd = okd and (alive, False) in C.all_facts(b_.node)
         reg = [x for x in stores(C) if x[4][0] == "callv" and
                x[4][1] == ("global", "RoutingTree") and
-               x[3] == ("attr", x[4], "chip")]
-        okd = okd and n_new == 1 and n_up == 1 and len(reg) == 1 and \
-            (alive, True) in C.all_facts(reg[0][0])
+               x[3] == ("attr", x[4], "chip") and
+               x[4][2] != (("attr", ROOT, "chip"),)]
+        if n_new != 1 or n_up != 1 or len(reg) != 1:
+            raise AnalysisError("copy_and_disconnect_tree: the copy / skip "
+                                "of a node was not found in the form "
+                                "analysed")
+        okd = okd and (alive, True) in C.all_facts(reg[0][0])
     rep.check(okd, "C03-R3", qual(cp), "dead chips are dropped from the "
               "copy (their children move up to the parent); only live "
               "chips get nodes", construct="copy dead chips", node=cp)
@@ -474,6 +497,9 @@ def r3_copy(program, rep):
     if okc:
         q = [x for x in method_calls(C, ("append", "extend"))
              if x[2][0] == "new" and x[3]]
+        # the queue may also be created from the root's children
+        seeds = [b_ for b_ in C.binds if b_.mode == "assign" and
+                 b_.value is not None]
         for n_, c, recv, args in q:
             item = args[0]
             if c.func.attr == "extend":
